@@ -37,6 +37,10 @@ static struct waiter WT[VP_MAXCO + 1];
 static int W_dead[VP_MAXCO + 1];                           /* parties that were killed */
 static long W_calls[VP_MAXCO + 1];                         /* wrapped calls made by each coroutine */
 static long W_kill_at[VP_MAXCO + 1];                       /* kill the coroutine before its K-th wrapped call (0 = never) */
+/* death at an arbitrary moment of the OTHER side's execution (SIGKILL while the victim is wherever it is, also blocked):
+   the victim dies just before the J-th wrapped call the observer makes after the order was armed */
+static int W_hit_victim = -1, W_hit_observer = -1, W_hit_done;
+static long W_hit_at, W_hit_base;
 static void (*W_server_turn)(void);                        /* harness: runs at every server loop iteration boundary */
 static int W_server_co = -1;
 static int W_dead_server_pid;                              /* kill(pid,0) answers ESRCH for this pid */
@@ -65,7 +69,7 @@ int __real_kill(pid_t p, int s);
 static void w_reset(void)
 {
 	W_now = W_BASE; W_epoch = 0;
-	memset(WT, 0, sizeof WT); memset(W_dead, 0, sizeof W_dead); memset(W_calls, 0, sizeof W_calls); memset(W_kill_at, 0, sizeof W_kill_at); memset(W_cred, 0, sizeof W_cred); W_fs_hook = NULL;
+	memset(WT, 0, sizeof WT); memset(W_dead, 0, sizeof W_dead); memset(W_calls, 0, sizeof W_calls); memset(W_kill_at, 0, sizeof W_kill_at); W_hit_victim = W_hit_observer = -1; W_hit_done = 0; W_hit_at = 0; memset(W_cred, 0, sizeof W_cred); W_fs_hook = NULL;
 	W_server_co = -1; W_dead_server_pid = 0; W_stop_server = 0; W_free_choices = 0; W_small_bufs = 0;
 }
 
@@ -146,12 +150,27 @@ static void w_wait(struct waiter *tmpl, const char *what)
 	w->active = 0;
 }
 
+static void w_hit_check(int me_, const char *tag)
+{
+	int v = W_hit_victim;
+	if (v < 0 || me_ != W_hit_observer || W_hit_done || W_calls[me_] - W_hit_base != W_hit_at) return;
+	W_hit_done = 1;
+	if (W_dead[v] || vp_co_done(v)) return;
+	W_dead[v] = 1; WT[v].active = 0;
+	vp_log("  *** %s dies (wherever it is: after its wrapped call #%ld) just before %s's wrapped call #%ld (%s)", vp_co_name(v), W_calls[v], vp_co_name(me_), W_hit_at, tag);
+	if (W_on_death) W_on_death(v);
+	vp_co_kill(v);
+	W_epoch++;
+}
+static void w_hit_arm(int victim, int observer, long at) { W_hit_victim = victim; W_hit_observer = observer; W_hit_at = at; W_hit_base = W_calls[observer]; W_hit_done = 0; }
+
 /* every wrapped call of a coroutine passes here: scheduling point + crash injection */
 static void w_call(const char *tag)
 {
 	int me_ = vp_co_self();
 	if (me_ < 0 || !vp_sched_active) return;
 	W_calls[me_]++;
+	w_hit_check(me_, tag);
 	if (W_kill_at[me_] && W_calls[me_] == W_kill_at[me_]) {
 		W_dead[me_] = 1;
 		vp_log("  *** %s dies before its wrapped call #%ld (%s)", vp_co_name(me_), W_calls[me_], tag);
@@ -203,6 +222,7 @@ int __wrap_epoll_wait(int epfd, struct epoll_event *ev, int maxev, int timeout)
 	if (vp_co_self() < 0) return __real_epoll_wait(epfd, ev, maxev, 0);
 	/* one call = one loop iteration = the server's voluntary yield point (no preemption cost) */
 	W_calls[vp_co_self()]++;
+	w_hit_check(vp_co_self(), "epoll_wait");
 	if (W_kill_at[vp_co_self()] && W_calls[vp_co_self()] == W_kill_at[vp_co_self()]) {
 		W_dead[vp_co_self()] = 1;
 		vp_log("  *** %s dies at a loop iteration boundary (wrapped call #%ld)", vp_co_name(vp_co_self()), W_calls[vp_co_self()]);
@@ -406,27 +426,44 @@ static void world_init_sched(void)
 
 /* list of /dev/shm entries (private mount), one string */
 static int shm_files_only;      /* 1: directories themselves are not listed, only what is inside them */
+static int shm_cmp(const void *a, const void *b) { return strcmp((const char *)a, (const char *)b); }
+static void shm_canon(char *canon)
+{
+	char *q;
+	/* "qb-<pid>-<pid>-<fd>-<6 random characters>" differs from process to process: print a canonical form */
+	if (!strncmp(canon, "qb-", 3) && canon[3] >= '0' && canon[3] <= '9') { int dashes = 0; for (q = canon + 3; *q; q++) { if (*q == '-') { dashes++; if (dashes == 3) { int k; for (k = 1; k <= 6 && q[k]; k++) q[k] = 'X'; break; } } else if (*q >= '0' && *q <= '9') *q = '#'; } }
+	/* the service name carries the pid of this process */
+	while (svc_name[0] && (q = strstr(canon, svc_name))) { size_t l = strlen(svc_name); memmove(q + 3, q + l, strlen(q + l) + 1); memcpy(q, "SVC", 3); }
+}
 static int shm_listing(char *out, size_t cap)
 {
-	DIR *d = opendir("/dev/shm"); struct dirent *e; size_t l = 0; int n = 0;
+	static char ent[64][300];
+	DIR *d = opendir("/dev/shm"); struct dirent *e; size_t l = 0; int n = 0, i;
 	out[0] = 0;
 	if (!d) return -1;
-	while ((e = readdir(d))) {
+	while ((e = readdir(d)) && n < 60) {
 		char canon[300];
 		if (e->d_name[0] == '.') continue;
-		/* "qb-<pid>-<pid>-<fd>-<6 random characters>" differs from process to process: print a canonical form */
 		snprintf(canon, sizeof canon, "%s", e->d_name);
-		if (!strncmp(canon, "qb-", 3)) { char *q; int dashes = 0; for (q = canon + 3; *q; q++) { if (*q == '-') { dashes++; if (dashes == 3) { int k; for (k = 1; k <= 6 && q[k]; k++) q[k] = 'X'; break; } } else if (*q >= '0' && *q <= '9') *q = '#'; } }
-		if (!(shm_files_only && e->d_type == DT_DIR)) { l += (size_t)snprintf(out + l, cap - l, "%s;", canon); n++; }
+		shm_canon(canon);
+		if (!(shm_files_only && e->d_type == DT_DIR)) { snprintf(ent[n], sizeof ent[n], "%.290s", canon); n++; }
 		if (e->d_type == DT_DIR) {
 			char p[400]; DIR *d2; struct dirent *e2;
 			snprintf(p, sizeof p, "/dev/shm/%s", e->d_name);
 			d2 = opendir(p);
-			if (d2) { while ((e2 = readdir(d2))) if (e2->d_name[0] != '.') { l += (size_t)snprintf(out + l, cap - l, "%s/%s;", canon, e2->d_name); n++; } closedir(d2); }
+			if (d2) {
+				while ((e2 = readdir(d2)) && n < 60) if (e2->d_name[0] != '.') {
+					char c2[300];
+					snprintf(c2, sizeof c2, "%s", e2->d_name); shm_canon(c2);
+					snprintf(ent[n], sizeof ent[n], "%.140s/%.140s", canon, c2); n++;
+				}
+				closedir(d2);
+			}
 		}
-		if (l + 300 > cap) break;
 	}
 	closedir(d);
+	qsort(ent, (size_t)n, sizeof ent[0], shm_cmp);
+	for (i = 0; i < n && l + 300 < cap; i++) l += (size_t)snprintf(out + l, cap - l, "%s;", ent[i]);
 	return n;
 }
 /* empty the (private) /dev/shm: leftovers of earlier executions must not be seen by this one */
